@@ -14,7 +14,8 @@ Engine exists:
       C13.sorted_versions     every cached sorted version of a LookupSet is a permutation of it
 The reference (naive filter + comparison sort) is written from the property statement and reads
 the table through Column.raw_get only; it never touches the lookup index."""
-import functools, itertools, json, os, shutil, sys, tempfile
+import faulthandler, functools, itertools, json, os, shutil, signal, sys, tempfile
+faulthandler.register(signal.SIGUSR1, all_threads=True)      # kill -USR1 <pid> dumps the stack
 sys.path.insert(0, os.path.dirname(os.path.dirname(os.path.abspath(__file__))))
 from vlib import common
 from vlib.rtc import eng, explore, gen
